@@ -144,6 +144,7 @@ class AColl:
         self.base = base
         self.pieces = list(pieces)
         self.unique = unique        # every record contributes at most one element
+        self._decided = None
 
     def _vc_comp(self, elt, conds):
         eng = E()
@@ -169,8 +170,11 @@ class AColl:
         return self.base.exists(lambda i: self.member())
 
     def __bool__(self):
-        r = self.nonempty()
-        return r if isinstance(r, bool) else E().branch(r.term)
+        # decided once per path and object: the decision is part of the path condition from then on
+        if self._decided is None:
+            r = self.nonempty()
+            self._decided = r if isinstance(r, bool) else E().branch(r.term)
+        return self._decided
 
     def truth(self):
         return self.nonempty()
